@@ -511,6 +511,8 @@ TEXTS = {1: [("a",), ("",)],
          5: [("a", "b", "", "a", "b")]}
 CACHE_PRE = [("off", []), ("mem-hash", []), ("mem-md5", []), ("fs-hash", []), ("fs-md5", ["a"])]
 ALPHA = ["a", "b", ""]
+# texts that differ only in white space / case / a trailing newline: distinct texts with distinct embeddings
+NEAR = ["a", "a ", " a", "A", "", " ", "a\n", "a  b", "a b"]
 
 
 def _sorted_tuples(vals, n):
@@ -587,6 +589,15 @@ def universe(quick):
             for t2, lat in ((10, [1, 1]), (0, [2, 1]), (1, [3, 0])):
                 out.append({"mb": 1, "hold": 0, "cache": cache, "pre": pre, "reqs": [],
                             "lists": [[0, la, "get"], [t2, lb, "get"]], "lat": lat, "api": "batch"})
+    # near-duplicate texts (white space, case): one list call, and two sequential list calls on the same index / store
+    for cache, pre in CACHE_PRE:
+        for k in (1, 2):
+            for lt in itertools.product(NEAR, repeat=k):
+                out.append({"mb": 1, "hold": 0, "cache": cache, "pre": pre, "reqs": [],
+                            "lists": [[0, list(lt), "get"]], "lat": [1], "api": "batch"})
+        for a, b in itertools.permutations(NEAR, 2):
+            out.append({"mb": 1, "hold": 0, "cache": cache, "pre": pre, "reqs": [],
+                        "lists": [[0, [a], "get"], [10, [b], "get"]], "lat": [1, 1], "api": "batch"})
     return out
 
 
@@ -747,7 +758,7 @@ TRACE_CFG = ('CONSTANTS N = %d\nNL = %d\nMaxBatch = %d\nCacheMode = "%s"\nEmbed 
 
 
 def embed_table():
-    univ = sorted(set(ALPHA + INDEX_ITEMS + ["zz", "?"]))
+    univ = sorted(set(ALPHA + NEAR + INDEX_ITEMS + ["zz", "?"]))
     tab = [{"t": t, "v": vkey(pure_embed(t))} for t in univ]
     assert len(set(x["v"] for x in tab)) == len(tab), "fake embedding not injective on the universe"
     return tab
